@@ -12,7 +12,7 @@ import re
 # --------------------------------------------------------------------------------------------------
 # SI prefixes and base units
 
-PREFIX = {'n': 1e-9, 'u': 1e-6, 'µ': 1e-6, 'm': 1e-3, 'c': 1e-2, 'd': 1e-1, '': 1.0, 'da': 1e1,
+PREFIX = {'p': 1e-12, 'n': 1e-9, 'u': 1e-6, 'µ': 1e-6, 'm': 1e-3, 'c': 1e-2, 'd': 1e-1, '': 1.0, 'da': 1e1,
           'k': 1e3, 'M': 1e6}
 BASES = ('mol', 'g', 'L', 'U')
 
@@ -279,11 +279,7 @@ def parse_quantity(s: str):
 def quantity_prefix_is_judged(s: str) -> bool:
     """Prefixed activity units ('mU') are accepted by some entry points and not by others and are not
     documented; they are not judged."""
-    try:
-        p, b = split_unit(s.split(' ')[1])
-    except Exception:
-        return True
-    return not (b == 'U' and p != '')
+    return True      # (prefixed activity units are quantities like any other since fix 'quantity strings accept prefixed activity units')
 
 
 def parse_concentration(s: str, wv_units: str = None):
@@ -338,6 +334,8 @@ def parse_concentration(s: str, wv_units: str = None):
             raise Reject('bad denominator')
         dv = parse_number(dt[0])
         du = dt[1]
+        if dv == 0:
+            raise Reject('zero denominator')
         v /= dv
     elif len(dt) == 1:
         du = dt[0]
@@ -347,6 +345,8 @@ def parse_concentration(s: str, wv_units: str = None):
         raise Reject('bad denominator')
     pn, bn = split_unit(nt[1])
     pd, bd = split_unit(du)
+    if not math.isfinite(v):
+        raise Reject('a concentration is a finite number')     # ('inf L' is how an unbounded capacity is written: quantities only)
     return v * PREFIX[pn] / PREFIX[pd], bn, bd
 
 
